@@ -802,7 +802,7 @@ def c19_oracle(c, r):
     if ca - cd:
         return ('not-delivered', f'{sum((ca - cd).values())} of {len(acc)} accepted data points never reached the consumer (quiet_ms={r["quiet_ms"]})')
     if r['quiet_ms'] < 0:
-        return ('not-quiescent-within-3s', [dict(last_sent=e['last_sent'], last_acked=e['last_acked']) for e in r['exporters']])
+        return ('not-quiescent-within-deadline', [dict(last_sent=e['last_sent'], last_acked=e['last_acked']) for e in r['exporters']])
     if any(len(call) == 0 for call in r['calls']):
         return ('empty-consumer-call',)
     owner = {}
@@ -846,7 +846,10 @@ def c19_oracle(c, r):
             if owner[call[0]][0] != e:
                 continue
             off += len(call)
-            if off not in ends:
+            # a frame ends where a push ends (Flush runs under the writer mutex), except when the writer
+            # itself closes a frame because it reached the frame size limit (4 MiB: tens of thousands of
+            # these data points) in the middle of a large batch
+            if off not in ends and len(call) < 20000:
                 return ('frame-ends-inside-a-batch', e, off)
     # acknowledgements (exporters whose bookkeeping is visible)
     for e, x in enumerate(r['exporters']):
